@@ -818,6 +818,42 @@ def month_end_ties(chk):
                branches=br)
 
 
+def boundary_fraction_runs(chk):
+    """live runs whose vegetation fractions sit at the exact boundaries of their validated ranges, in combination
+    (harness/x3_util.live_boundary_members), out of and in season; per step the SeasonWatch oracle of w3_util plus the
+    vegetation-albedo twin of x3_util.AlbedoTwin."""
+    import x3_util as X3
+    quick = chk.tier == 'quick'
+    members = X3.live_boundary_members(quick)
+    tw, w, done, found, notes = X3.live_boundary_runs(chk, members, n_full=1 if quick else 4)
+    for label, cfg, msgs in found[:3]:
+        chk.violation('impl-violation', 'season oracle on a live run with vegetation fractions at the boundaries of their ranges',
+                      case=dict(cfg, label=label, dtsim=300), observed=' | '.join(msgs[:2]),
+                      expected='outside the configured months vegstart..vegend the vegetation albedo has no effect on the '
+                               'reflection model (the same step repeated with another albveg gives the same radiation on road, '
+                               'walls, roofs) and the surface-flux model absorbs the bare-ground amount; inside, both models '
+                               'take the vegetation into account')
+    for nt in notes[:4]:
+        chk.notes.append('boundary-fraction run: ' + nt)
+    br = dict(('albveg-twin:' + k, v) for k, v in tw.counts.items())
+    for k, v in w.counts.items():
+        kk = k.split(':month')[0]
+        br[kk] = br.get(kk, 0) + v
+    if done and not (tw.counts.get('off-season/road vegcoverage = 1') and tw.counts.get('in-season/road vegcoverage = 1')):
+        raise core.Infra('boundary-fraction family: no fully vegetated road judged off and in season: %s' % tw.counts)
+    chk.direct('live-boundary-fractions(road fully vegetated; trees only; rurvegcover 0 / 1; albveg twin per step)',
+               sum(br.values()), done,
+               '1- and 2-day live runs (dt 300 s; the first with the full physics, the others with w3_util.light_physics) whose '
+               'vegetation fractions sit at the exact boundaries of their validated ranges, in combination: grasscover + treecover '
+               '+ blddensity = 1 (0.25 + 0.25 + 0.5; 0 + 0.4 + 0.6: the road is fully vegetated, road.vegcoverage = 1.0), '
+               'treecover = vegcover (grasscover = 0), grass only, rurvegcover 0 / 1 - out of season, in season and across a '
+               'season boundary. Per sunlit step (calendar month from the start date and the steps taken): (a) the same '
+               'solarcalcs call repeated by a fresh SolarCalcs under ANOTHER vegetation albedo gives the same radiation on road / '
+               'walls / roofs outside the season and a different one inside (vegetated road); (b) vegetation heat 0 outside, > 0 '
+               'inside; (c) road and rural SurfFlux absorb the bare-ground amount outside, the vegetated amount inside. Members: '
+               + '; '.join(mm[0] for mm in members), mismatches=len(found), branches=br)
+
+
 def run(chk):
     chk.proof(MODULE, THEOREMS)
     if chk.tier == 'thorough':
@@ -837,6 +873,21 @@ def run(chk):
                 out, aero = impl_surf(pkg, st, road, m, s, e, sim=ck, circ=U4.circ_pick(rng))
                 cases.append((surf_line(st, road, m, s, e, aero), 'ok ' + frac_list(out)))
                 meta.append((m, s, e, road, dict(st, clock_day=ck.day), out))
+    # vegetation fractions at the exact boundaries of their validated ranges, in combination (harness/x3_util.py)
+    import x3_util as X3
+    btriples = X3.boundary_triples(triples, chk.tier == 'quick')
+    bkinds = {}
+    for n, (m, s, e) in enumerate(btriples):
+        road = n % 3 != 2
+        kind, st = X3.boundary_surf_state(surf_state(rng), road, n // 3 if road else n // 3, rng)
+        if road and n % 3 == 1:
+            kind, st = X3.boundary_surf_state(st, road, n // 3 + 3, rng)
+        bkinds[kind] = bkinds.get(kind, 0) + 1
+        ck = clock(pkg, rng, m)
+        out, aero = impl_surf(pkg, st, road, m, s, e, sim=ck, circ=U4.circ_pick(rng))
+        cases.append((surf_line(st, road, m, s, e, aero), 'ok ' + frac_list(out)))
+        meta.append((m, s, e, road, dict(st, clock_day=ck.day, vegetation_fractions=kind), out))
+    chk.extra_cov['vegetation fractions at their boundaries (SurfFlux tie)'] = bkinds
     chk.correspond('Element.SurfFlux~surfFluxHorizontal', 'C18', cases,
                    rule='fractionised Element.SurfFlux (horizontal) for ALL 12x12x12 (month,start,end) '
                         'x {road, non-road} x random states vs Lean model, exact; every case non-trivial; the clock '
@@ -844,11 +895,14 @@ def run(chk):
                         'beyond the end of the month included: the package accepts them); three cases of five under '
                         'a circumstance that is no input (Element and clock rendered with repr / str right before the '
                         'call and before the results are read; DEBUG logging on; both) - likewise in the two solarcalcs '
-                        'ties (SolarCalcs object and clock rendered)',
+                        'ties (SolarCalcs object and clock rendered); PLUS, for a third of the triples (thorough: all), '
+                        'states whose vegetation fractions sit at the exact boundaries of their ranges, in combination: '
+                        'road fully vegetated (grass + trees = 1; trees only; grass only), road with trees only / grass '
+                        'only (the other share 0), road without vegetation, non-road surface with coverage 1 / 0',
                    classify=lambda l, i: 'road' if 'road=1' in l else 'nonroad')
 
     # --- tie 2: road albedo inside solarcalcs, every triple
-    cases2, meta2 = [], []
+    cases2, meta2, boundary_heat = [], [], []
     for (m, s, e) in triples:
         alb, vc, va = rq(rng, 0.05, 0.5), rq(rng, 0.05, 0.95), rq(rng, 0.1, 0.45)
         ck = clock(pkg, rng, m)
@@ -856,12 +910,25 @@ def run(chk):
         cases2.append(('alb m=%d s=%d e=%d v=%s' % (m, s, e, frac_list([alb, vc, va])),
                        'ok ' + frac_str(got)))
         meta2.append((m, s, e, alb, vc, va, got, ck.day))
+    bkinds2 = {}
+    for n, (m, s, e) in enumerate(btriples):
+        kind, vc = X3.ALB_BOUNDARY[n % len(X3.ALB_BOUNDARY)]
+        bkinds2[kind] = bkinds2.get(kind, 0) + 1
+        alb, va = rq(rng, 0.05, 0.5), rq(rng, 0.1, 0.45)
+        ck = clock(pkg, rng, m)
+        got, ts, tl, rr, tc, vcov, tf, gf = impl_road_albedo(pkg, m, s, e, alb, vc, va, full=True, sim=ck, circ=U4.circ_pick(rng))
+        cases2.append(('alb m=%d s=%d e=%d v=%s' % (m, s, e, frac_list([alb, vc, va])), 'ok ' + frac_str(got)))
+        meta2.append((m, s, e, alb, vc, va, got, ck.day))
+        boundary_heat.append((m, s, e, va, tf, gf, rr, tc, vcov, ts, tl, ck.day))
+    chk.extra_cov['vegetation fractions at their boundaries (road-albedo and vegetation-heat ties)'] = bkinds2
     chk.correspond('SolarCalcs.road-albedo~roadAlbedo', 'C18', cases2,
                    rule='road albedo used by the real solarcalcs (recovered exactly from mr with '
                         'non-reflecting walls) for ALL 12x12x12 triples vs Lean roadAlbedo; the reference-site object '
                         'handed to SolarCalcs states one of 7 sites (latitude 64 .. -54.8, both hemispheres, equator; '
                         'longitude east / west; time zone) - the site is no input of the season (likewise in the '
-                        'vegetation-heat tie)',
+                        'vegetation-heat tie); road coverage drawn from 0.05 .. 0.95, PLUS for a third of the triples '
+                        '(thorough: all) a road whose coverage is EXACTLY 1 (fully vegetated: vegcover + blddensity = 1) '
+                        'or exactly 0 (likewise in the vegetation-heat tie)',
                    classify=lambda l, i: 'all')
 
     # --- tie 3: vegetation heat released to the canyon air, every triple
@@ -874,6 +941,9 @@ def run(chk):
         cases3.append(('vegheat m=%d s=%d e=%d v=%s' % (m, s, e, frac_list([va, tf, gf, rr, tc, vcov])),
                        'ok ' + frac_list([ts, tl])))
         meta3.append((m, s, e, ts, tl, ck.day))
+    for (m, s, e, va, tf, gf, rr, tc, vcov, ts, tl, cday) in boundary_heat:
+        cases3.append(('vegheat m=%d s=%d e=%d v=%s' % (m, s, e, frac_list([va, tf, gf, rr, tc, vcov])), 'ok ' + frac_list([ts, tl])))
+        meta3.append((m, s, e, ts, tl, cday))
     chk.correspond('SolarCalcs.vegetation-heat~vegHeat', 'C18', cases3,
                    rule='UCM.treeSensHeat/treeLatHeat after the real solarcalcs for ALL 12x12x12 '
                         'triples vs Lean vegHeat', classify=lambda l, i: 'all')
@@ -932,6 +1002,7 @@ def run(chk):
     live_wet_runs(chk)
     circumstance_ties(chk, chk.tier == 'quick')
     month_end_ties(chk)
+    boundary_fraction_runs(chk)
     wrap = [(m, s, e) for (m, s, e, *_r) in meta2 if s > e]
     chk.measurements['wraparound'] = (
         'start > end (%d of 1728 triples): both routines treat every month as off-season '
